@@ -40,6 +40,8 @@ def main():
                 'confirmed': {'tests_pass_with_change': r['tests_pass_with_change'], 'demo_exit_clean_tree': r['demo_clean_exit'], 'demo_exit_with_change': r['demo_changed_exit']},
                 'what_was_run': 'tools_seed.py', 'checks': {c: {'exit': v['exit'], 'violations': v['violations'], 'first_keys': v.get('keys', [])[:3]} for c, v in r['checks'].items()},
                 'caught_by': caught}
+        if desc[str(k)].get('not_reported_because'):
+            meta['not_reported_because'] = desc[str(k)]['not_reported_because']
         if desc[str(k)].get('strengthened'):
             meta['strengthened'] = desc[str(k)]['strengthened']
         if desc[str(k)].get('first_attempt'):
